@@ -5,19 +5,13 @@ set -e
 ROOT="$(cd "$(dirname "${BASH_SOURCE[0]}")/.." && pwd)"
 OUT="$ROOT/target/tla"
 rm -rf "$OUT"; mkdir -p "$OUT"
-cp "$ROOT/tla/Assoc.tla" "$ROOT/tla/Assoc.cfg" "$ROOT/tla/AssocScp.cfg" "$OUT/"
+cp "$ROOT/tla/Assoc.tla" "$ROOT/tla/Assoc.cfg" "$OUT/"
 cd "$OUT"
 # small JVM: the model has ~1000 states, start-up dominates
 export JAVA_TOOL_OPTIONS="${JAVA_TOOL_OPTIONS:--XX:TieredStopAtLevel=1 -XX:ParallelGCThreads=2 -Xmx1g}"
-run() { # <cfg> <tag>
-  tlc -workers 1 -metadir "$OUT/states-$2" -dump dot,actionlabels "$OUT/$2.dot" -config "$1" Assoc.tla >"$OUT/$2.log" 2>&1 \
-    || { cat "$OUT/$2.log"; echo "TLC failed on $1"; exit 1; }
-  grep -q "Model checking completed. No error has been found." "$OUT/$2.log" || { cat "$OUT/$2.log"; echo "TLC reported an error on $1"; exit 1; }
-  python3 "$ROOT/tla/graph2nfa.py" build "$OUT/$2.dot" "$OUT/$2.json" --log "$OUT/$2.log"
-}
-run Assoc.cfg assoc &
-P1=$!
-run AssocScp.cfg assoc_scp &
-P2=$!
-wait $P1; wait $P2
+tlc -workers 1 -metadir "$OUT/states" -dump dot,actionlabels "$OUT/assoc.dot" -config Assoc.cfg Assoc.tla >"$OUT/tlc.log" 2>&1 \
+  || { cat "$OUT/tlc.log"; echo "TLC failed"; exit 1; }
+grep -q "Model checking completed. No error has been found." "$OUT/tlc.log" || { cat "$OUT/tlc.log"; echo "TLC reported an error"; exit 1; }
+python3 "$ROOT/tla/graph2nfa.py" build "$OUT/assoc.dot" "$OUT/assoc.json" --conf FALSE --log "$OUT/tlc.log"
+python3 "$ROOT/tla/graph2nfa.py" build "$OUT/assoc.dot" "$OUT/assoc_scp.json" --conf TRUE --log "$OUT/tlc.log"
 test -s "$OUT/assoc.json" && test -s "$OUT/assoc_scp.json"
